@@ -210,9 +210,16 @@ func exploreCase(prop, engine, tier string, c GraphCase, bound int, check func(G
 		}
 	}}
 	if bound < 0 {
+		// all orders at all sites: finite on the intended code (a few hundred executions
+		// per case); capped so that a change which multiplies the choice points (e.g.
+		// unbounded recursion) cannot make one case run for ever
 		e.Bound = 1 << 20
+		e.MaxExecs = 50000
 	}
 	e.Explore()
+	if e.Capped {
+		stats.Classes["capped"]++
+	}
 	_ = outcomes
 	stats.Execs += e.Execs
 	stats.Points += e.Points
